@@ -250,3 +250,31 @@ def declaration_numberings():
         ps = ", ".join(("i32 " + i).strip() for i in ids)
         out.append(("decl-params:" + ",".join(ids), "declare void @f(%s)\n" % ps, ok))
     return out
+
+
+def global_numberings():
+    """written IDs of unnamed GLOBAL entities (variables, aliases, ifuncs, functions share one sequence, numbered in the order they are defined): (kind, text, valid)"""
+    G = "@%s = global i32 %d\n"
+    F = "define void @%s() {\n\tret void\n}\n"
+    D = "declare void @%s()\n"
+    A = "@%s = alias i32, i32* @x\n"
+    X = "@x = global i32 7\n"
+    out = []
+    def add(kind, text, ok):
+        out.append(("global-ids:" + kind, text, ok))
+    add("0-1", G % ("0", 0) + G % ("1", 1) + "@u = global i32* @1\n", True)
+    add("named-between", G % ("0", 0) + X + G % ("1", 1) + "@u = global i32* @1\n", True)
+    add("all-kinds", X + G % ("0", 0) + A % "1" + D % "2" + F % "3" + "@u = global void ()* @3\n@v = global i32* @1\n", True)
+    add("function-first", F % "0" + G % ("1", 1), True)
+    add("twice-0", G % ("0", 0) + G % ("0", 1), False)
+    add("twice-0-used", G % ("0", 0) + G % ("0", 1) + "@u = global i32* @1\n", False)
+    add("starts-at-1", G % ("1", 0), False)
+    add("starts-at-5-ref-0", G % ("5", 0) + "@u = global i32* @0\n", False)
+    add("gap", G % ("0", 0) + G % ("2", 1), False)
+    add("swapped", G % ("1", 0) + G % ("0", 1), False)
+    add("function-twice-0", F % "0" + F % "0", False)
+    add("global-and-function-0", G % ("0", 0) + F % "0", False)
+    add("alias-repeats-id", X + G % ("0", 0) + A % "0", False)
+    add("declaration-gap", D % "0" + D % "2", False)
+    add("second-after-named-restarts", G % ("0", 0) + X + G % ("0", 1), False)
+    return out
